@@ -44,3 +44,9 @@ CORPUS = [
     M("n-nested-if", L, AUTHBLOCK, "        if isinstance(self._protocol, _LanProtocolV3):\n            if not self._protocol.authenticated:\n                await self.authenticate()\n", "S"),
     M("n-16bit-mask", L, "        self._packet_id &= 0xFFF  # Mask to 12 bits", "        self._packet_id &= 0xFFFF  # Mask to 16 bits", "S"),
 ]
+# round 6 (C07.c): the handshake request carries the counter as 2 bytes big-endian, like the encrypted request
+CORPUS += [
+    M("handshake-counter-reversed", L, '        payload = packet_id.to_bytes(2, "big") + data\n\n        return header + payload', '        payload = packet_id.to_bytes(2, "big")[::-1] + data\n\n        return header + payload'),
+    M("handshake-counter-one-byte", L, '        payload = packet_id.to_bytes(2, "big") + data\n\n        return header + payload', '        payload = bytes([0, packet_id & 0xFF]) + data\n\n        return header + payload'),
+    M("n-handshake-counter-struct", L, '        payload = packet_id.to_bytes(2, "big") + data\n\n        return header + payload', '        payload = struct.pack(">H", packet_id) + data\n\n        return header + payload', "S"),
+]
